@@ -14,7 +14,8 @@ EXPLANATION = (
     "Residual: carrier overflow at 64 bits is C19's subject."
     " Added after the third round of seeded changes: R8 the value (float) route of the wrappers is taken only for method='repr', a scaled operand or n_frac None; governing configuration (C08.R3), constructor state (C20.R2), current n_int after resize (C02.R3), the 64-bit machine carrier (C18.R5) and transparent numpy dispatch (C15.R5) are included."
     ' Added after the fourth round of seeded changes: R9 the arithmetic kernels combine operands out of place (no augmented assignment); read-back conversions used by the value route (C16.R2); C20.R8 objects carry only the documented attributes and no function writes module-level containers (no caches / memos that go stale).'
-    ' Added after the fifth round of seeded changes: C20.R8 also forbids mutable default arguments and private attributes hung on operands (x._cache, x.__dict__[...]).')
+    ' Added after the fifth round of seeded changes: C20.R8 also forbids mutable default arguments and private attributes hung on operands (x._cache, x.__dict__[...]).'
+    ' Added after the sixth round of seeded changes: a kernel that became a one-expression def is still found when the normaliser turned its reference into a lambda, and a function named in the rule whose kernel cannot be found is an analysis error, never a pass.')
 ASSUMPTIONS = ["operands are well-formed Fxp objects (C02)", "n_frac of Fxp operands are integers"]
 TRUSTED = ["CPython ast", "fxlint term normaliser", "scale typing rules of DESIGN A6"]
 
